@@ -127,21 +127,44 @@ func (sr *srvRun) checkCoalescing() {
 	}
 }
 
+// srvsize <seed> <nentries> <cacheMB>: a root directory accounted at more than the cache limit (24 bytes per entry),
+// served with the smallest accepted cache size; responses must stay correct and the reported size below the limit.
+// Oracle only (the executable model has no byte accounting yet).   -> ok
+func c09size(seed uint64, ne int, cacheMB int) *srvRun {
+	rr := &rng{s: seed}
+	es := make([]Ent, ne)
+	data := rr.bytes(64)
+	base := hilBase(8)
+	for i := range es {
+		es[i] = Ent{ID: base + uint64(i), Off: uint64(i%4) * 16, Len: 16, Run: 1}
+	}
+	a := buildArchive(rr, es, data, archOpts{tree: treeOpts{depth: 0, gzip: true, shorthand: true}, tileType: 2, tileComp: 1, meta: "{}", minZoom: 0, maxZoom: 9})
+	small := genVersion(rr, 1, 1, 2, false)
+	sr := newSrvRun(cacheMB)
+	v0 := &srvVersion{id: 0, name: 0, tag: 1, arch: a}
+	sr.versions = append(sr.versions, v0, small)
+	sr.install(v0)
+	sr.install(small)
+	drive(rr, sr, 6, []int{0, 1, 0}, nil)
+	sr.checkResponses(false)
+	if sr.sizeViol {
+		sr.viol = append(sr.viol, fmt.Sprintf("reported directory cache size is not below the limit %d (a directory of %d entries)", sr.limit, ne))
+	}
+	return sr
+}
+
 func c09(r *rng, tier string, o *out) {
+	for _, ne := range []int{41000, 42000, 65536} {
+		sr := c09size(r.next()%1000, ne, 1)
+		finishRun(o, "C09", sr, 1, true, "size-bound")
+	}
 	n := 150
 	if tier == "thorough" {
 		n = 5000
 	}
 	for c := 0; c < n; c++ {
-		sr := newSrvRun(64)
-		var stats []string
-		pmtiles.VerifSetTraceSink(func(s string) {
-			if strings.HasPrefix(s, "stat") {
-				sr.traceMu.Lock()
-				stats = append(stats, s)
-				sr.traceMu.Unlock()
-			}
-		})
+		cacheMB := []int{64, 64, 1}[r.intn(3)]
+		sr := newSrvRun(cacheMB)
 		m := 1 + r.intn(3)
 		var names []int
 		for k := 0; k < m; k++ {
@@ -154,23 +177,12 @@ func c09(r *rng, tier string, o *out) {
 			names = append(names, 7) // an archive that does not exist
 		}
 		drive(r, sr, 2+r.intn(6), names, nil)
-		pmtiles.VerifSetTraceSink(nil)
 		sr.checkResponses(false)
 		sr.checkCoalescing()
-		var size, limit int
-		for _, s := range stats {
-			var v int
-			if _, err := fmt.Sscanf(s, "stat limit %d", &v); err == nil {
-				limit = v
-			}
-			if _, err := fmt.Sscanf(s, "stat size %d", &v); err == nil {
-				size = v
-				if limit > 0 && size >= limit {
-					sr.viol = append(sr.viol, fmt.Sprintf("reported cache size %d reaches the limit %d", size, limit))
-				}
-			}
+		if sr.sizeViol {
+			sr.viol = append(sr.viol, fmt.Sprintf("reported cache size reaches the limit %d", sr.limit))
 		}
-		finishRun(o, "C09", sr, 64, len(sr.reqs) > 2, fmt.Sprintf("archives=%d", m))
+		finishRun(o, "C09", sr, cacheMB, len(sr.reqs) > 2, fmt.Sprintf("archives=%d", m))
 	}
 }
 
@@ -225,6 +237,7 @@ func c08(r *rng, tier string, o *out) {
 // srvReplay re-executes a recorded schedule (case line) against the real server.
 func srvReplay(line string) (string, []string) {
 	f := strings.Fields(line)
+
 	var cacheMB, nv int
 	fmt.Sscanf(f[1], "%d", &cacheMB)
 	fmt.Sscanf(f[2], "%d", &nv)
